@@ -201,8 +201,9 @@ func (g *Gen) atomicStep(lv LV, st State, old, nv string, in ssa.Instruction, re
 	if rg, ok := g.prog.ranges[lv.heap]; ok {
 		env := g.envAt(st, st, g.pkg, map[string]T{"v": {S: oldN, So: lv.so}})
 		t := env.compileBool(rg.Expr)
-		g.reportSpecErrors(env, rg)
-		g.assume(t.S)
+		if !g.reportSpecErrors(env, rg) {
+			g.assume(t.S)
+		}
 	}
 	gu, ok := g.prog.guarantees[lv.heap]
 	if !ok {
@@ -231,8 +232,9 @@ func (g *Gen) atomicRely(lv LV, st State) {
 	vars := map[string]T{"old_v": {S: old, So: lv.so}, "new_v": {S: fresh, So: lv.so}}
 	env := g.envAt(st, st, g.pkg, vars)
 	t := env.compileBool(gu.Expr)
-	g.reportSpecErrors(env, gu)
-	g.assume(t.S)
+	if !g.reportSpecErrors(env, gu) {
+		g.assume(t.S)
+	}
 	g.lvStore(lv, st, fresh)
 }
 
@@ -285,7 +287,9 @@ func (g *Gen) lockOp(addr ssa.Value, read bool, acquire bool, st State, reach st
 			for _, cl := range mon.Inv {
 				env := g.envAt(st, st, g.prog.typesPkg(mon.Pkg), map[string]T{"self": selfT})
 				t := env.compileBool(cl.Expr)
-				g.reportSpecErrors(env, cl)
+				if g.reportSpecErrors(env, cl) {
+					continue
+				}
 				g.assume(app("=>", reach, t.S))
 			}
 		}
@@ -293,7 +297,9 @@ func (g *Gen) lockOp(addr ssa.Value, read bool, acquire bool, st State, reach st
 			for _, cl := range mon.Assume {
 				env := g.envAt(st, st, g.prog.typesPkg(mon.Pkg), map[string]T{"self": selfT})
 				t := env.compileBool(cl.Expr)
-				g.reportSpecErrors(env, cl)
+				if g.reportSpecErrors(env, cl) {
+					continue
+				}
 				g.assume(app("=>", reach, t.S))
 			}
 		}
@@ -302,7 +308,9 @@ func (g *Gen) lockOp(addr ssa.Value, read bool, acquire bool, st State, reach st
 			for _, cl := range g.ct.LockedAssume {
 				env := g.envAt(st, g.entryState(), g.pkg, g.paramEnv)
 				t := env.compileBool(cl.Expr)
-				g.reportSpecErrors(env, cl)
+				if g.reportSpecErrors(env, cl) {
+					continue
+				}
 				g.assume(app("=>", reach, t.S))
 				g.assumed["assumed at lock acquisition in "+funcDisplayName(g.fn)+": "+cl.Text] = true
 			}
@@ -382,6 +390,7 @@ func (g *Gen) sortSearch(v ssa.Value, c *ssa.CallCommon, in ssa.Instruction, st 
 			vars[fv.Name()] = b
 		}
 	}
+	stale := false
 	pred := func(idx string) string {
 		vs := map[string]T{}
 		for k, t := range vars {
@@ -396,10 +405,17 @@ func (g *Gen) sortSearch(v ssa.Value, c *ssa.CallCommon, in ssa.Instruction, st 
 			}
 			env := g.envAt(st, st, g.pkg, vs)
 			t := env.compileBool(cl.Expr)
-			g.reportSpecErrors(env, cl)
+			if g.reportSpecErrors(env, cl) {
+				stale = true
+			}
 			out = append(out, t.S)
 		}
 		return and(out...)
+	}
+	if pred("0"); stale {
+		// the closure's contract no longer matches its captured variables: nothing is known
+		// about the search result beyond its range
+		return true
 	}
 	// obligation: monotone on [0,n)
 	g.newObligation("pre", "sort.Search.monotone", "sort.Search predicate is monotone on [0,n)", g.where(in.Pos()),
@@ -457,6 +473,7 @@ func (g *Gen) sortedFacts(c *ssa.CallCommon, x T, na, old string, el *Sort, elT 
 	}
 	vars := map[string]T{}
 	g.closureVars(&ssa.CallCommon{Value: mc}, st, vars)
+	staleLess := false
 	less := func(i, j string) string {
 		vs := map[string]T{}
 		for k, t := range vars {
@@ -471,10 +488,15 @@ func (g *Gen) sortedFacts(c *ssa.CallCommon, x T, na, old string, el *Sort, elT 
 			}
 			env := g.envAt(st, st, g.pkg, vs)
 			t := env.compileBool(cl.Expr)
-			g.reportSpecErrors(env, cl)
+			if g.reportSpecErrors(env, cl) {
+				staleLess = true
+			}
 			out = append(out, t.S)
 		}
 		return and(out...)
+	}
+	if less("0", "1"); staleLess {
+		return
 	}
 	g.assume(app("=>", reach, fmt.Sprintf("(forall ((a!q Int) (b!q Int)) (=> (and (<= 0 a!q) (< a!q b!q) (< b!q (s_len %s))) (not %s)))", x.S, less("b!q", "a!q"))))
 }
